@@ -20,7 +20,9 @@ def emit(pairs, check_fn=None):
     lines = [lib.CASE_HEADER.format(imports="RepModel Routine Compile CompileTop DenSrc Checks", gen_imports="")]
     items = []
     for k, (case, imp) in enumerate(pairs):
-        lines.append(f"Definition r{k} : routine := {H.routine_to_coq(case['routine'])}.")
+        dl = case.get("derived_leaf")
+        src = H.with_leaf_resource(case["routine"], dl) if dl else case["routine"]
+        lines.append(f"Definition r{k} : routine := {H.routine_to_coq(src)}.")
         lines.append(f"Definition i{k} : impl_result := {H.impl_to_coq(imp)}.")
         names = set(case.get("point_names", []))
         if imp.get("ok"):
@@ -28,7 +30,11 @@ def emit(pairs, check_fn=None):
         rng = lib.Rng(f"pts-{lib.case_hash(case)}")
         pts = H.points_to_coq(H.make_points(rng, names, 4))
         inex = "true" if imp.get("inexact") else "false"
-        if check_fn:
+        if dl:
+            # a derived resource calculated on the leaves: compared with the routine whose leaves declare it, the resource
+            # reaching a node through repetitions only
+            items.append(f"(check_derived_leaf r{k} {E.coq_string(dl['name'])} i{k} {inex} {pts})")
+        elif check_fn:
             items.append(f"({check_fn} r{k} i{k} {inex} {pts})")
         else:
             items.append(f"(tie_compile r{k} i{k} {inex} {pts}, spec_compile r{k} i{k} {inex} {pts})")
